@@ -33,7 +33,7 @@ func skipInit(path string) bool {
 	switch path {
 	case "runtime", "os", "syscall", "internal/cpu", "internal/bytealg", "internal/poll", "internal/godebug", "internal/godebugs",
 		"github.com/sirupsen/logrus", "internal/syscall/unix", "internal/testlog", "os/signal", "net", "crypto/rand",
-		"internal/oserror", "io/fs", "path/filepath", "os/exec", "os/user", "reflect", "internal/reflectlite", "internal/abi",
+		"path/filepath", "os/exec", "os/user", "reflect", "internal/reflectlite", "internal/abi",
 		"runtime/debug", "runtime/pprof", "runtime/trace", "log", "testing", "flag", "math/rand", "internal/race", "sync", "sync/atomic",
 		"github.com/mattn/go-sqlite3", "database/sql", "database/sql/driver", "internal/intern", "unique", "internal/sysinfo",
 		"golang.org/x/sys/unix", "internal/singleflight", "net/http", "crypto/tls", "crypto/x509", "vendor/golang.org/x/net/idna":
